@@ -445,6 +445,7 @@ def Mon.step (m : Mon) (line : String) (out : String) : Mon × Option String :=
             if id < m.reg.length then ({ m with linked := m.linked.filter (· != (r, id)) }, none) else (m, none)
           | .unknown _ _ => (m, none)
           | .event lane target resp =>
+            if lane ≥ m.reg.length then (m, some "malformed-op") else
             -- a failed lane produces nothing more (its channel is gone); such events are not accounted
             if m.failed.contains lane then (m, none) else
             let hasRep := m.reps.contains lane
@@ -462,7 +463,9 @@ def Mon.step (m : Mon) (line : String) (out : String) : Mon × Option String :=
               let m2 := if m.hasAgg then { m1 with evAgg := m1.evAgg + n } else m1
               (if m.hasAgg && hasRep then { m2 with evLane := alSet m2.evLane lane ((alGet m2.evLane lane).getD 0 + n) } else m2, none)
           | .done _ _ => (m, none)
-          | .laneFailed lane => ({ m with failed := m.failed ++ [lane], linked := m.linked.filter (·.2 != lane) }, none)
+          | .laneFailed lane =>
+            if lane ≥ m.reg.length then (m, some "malformed-op") else
+            ({ m with failed := m.failed ++ [lane], linked := m.linked.filter (·.2 != lane) }, none)
           | .prune _ => (m, none)
           | .stop => (m, none)
           | .snapshot =>
